@@ -2304,12 +2304,31 @@ func (w *Walker) readsOptionsDirect(fn *types.Func) bool {
 		if call, ok := n.(*ast.CallExpr); ok {
 			if c := Callee(info, call); c != nil && (c.Name() == "Options" || c.Name() == "GetExtension" || c.Name() == "HasExtension") {
 				res = true
-			} else if c != nil && fn.Exported() && c.Pkg() == fn.Pkg() && w.P.Decls[c] != nil && w.readsOptions(c) {
+			} else if c != nil && fn.Exported() && c.Pkg() == fn.Pkg() && w.P.Decls[c] != nil && w.callsOptionReader(c) {
 				// an exported accessor whose read goes through a private or generic reader of its package
 				// (fieldExtensionOr[T](field, ext, fallback)) is the public face of that read: it is the base accessor
 				if sig, ok := c.Type().(*types.Signature); ok && (!c.Exported() || sig.TypeParams().Len() > 0) {
 					res = true
 				}
+			}
+		}
+		return !res
+	})
+	return res
+}
+
+// callsOptionReader: fn's own body calls Options() / proto.GetExtension / proto.HasExtension (no transitive closure).
+func (w *Walker) callsOptionReader(fn *types.Func) bool {
+	decl := w.P.Decls[fn]
+	if decl == nil || decl.Body == nil {
+		return false
+	}
+	info := w.P.DeclPkg[fn].TypesInfo
+	res := false
+	ast.Inspect(decl.Body, func(n ast.Node) bool {
+		if call, ok := n.(*ast.CallExpr); ok {
+			if c := Callee(info, call); c != nil && (c.Name() == "Options" || c.Name() == "GetExtension" || c.Name() == "HasExtension") {
+				res = true
 			}
 		}
 		return !res
